@@ -271,6 +271,43 @@ def job_pack(job, P, ADE):
     return {"obs": res}
 
 
+def job_deltify(job, P, ADE):
+    """The encoder as the pack writer uses it (deltify=True): what deltas_from_sorted_objects /
+    deltify_pack_objects record, and what write_pack_objects writes, for a small family of blobs.
+    Observed per case: the (object id, base id | None, payload) triples, resp. the pack bytes with
+    the writer's own id -> offset table."""
+    import io
+    from dulwich.object_format import DEFAULT_OBJECT_FORMAT
+    from dulwich.objects import Blob
+    from harness import c03_data as D
+    res = []
+    with open(job["path"]) as f:
+        cases = [json.loads(line) for line in f if line.strip()]
+    for c in cases:
+        blobs = [Blob.from_string(D.blob(r)) for r in c["blobs"]]
+        w = c.get("window")
+        try:
+            if c["via"] == "write":
+                buf = io.BytesIO()
+                entries, _ = P.write_pack_objects(buf.write, [(b, b"f") for b in blobs], DEFAULT_OBJECT_FORMAT,
+                                                  deltify=True, delta_window_size=w)
+                obs = {"k": "pack", "pack": buf.getvalue().hex(),
+                       "offsets": {(k.hex() if len(k) == 20 else k.decode()): v[0] for k, v in entries.items()}}
+            else:
+                if c["via"] == "sorted":
+                    it = P.deltas_from_sorted_objects(iter([(b, None) for b in blobs]), window_size=w)
+                else:
+                    it = P.deltify_pack_objects(iter([(b, b"f") for b in blobs]), window_size=w)
+                obs = {"k": "entries", "entries": [[u.sha().hex(), u.delta_base.hex() if u.delta_base else None,
+                                                    b"".join(u.decomp_chunks).hex(), u.decomp_len] for u in it]}
+        except BaseException as e:  # noqa: BLE001
+            name = type(e).__name__
+            obs = {"k": "panic" if name == "PanicException" else "exception", "cls": name, "msg": str(e)[:200]}
+        obs["id"] = c["id"]
+        res.append(obs)
+    return {"obs": res}
+
+
 def job_encode(job, P, ADE):
     """Encode cases: {"id", "base": recipe, "target": recipe}; each in a forked grandchild when "iso"."""
     from harness import c03_data as D
@@ -311,7 +348,7 @@ def main():
     resource.setrlimit(resource.RLIMIT_AS, (AS_LIMIT, AS_LIMIT))
     resource.setrlimit(resource.RLIMIT_CORE, (0, 0))
     P, ADE = setup(job["mode"])
-    fn = {"dump": job_dump, "cases": job_cases, "pack": job_pack, "encode": job_encode, "prims": job_prims}[job["kind"]]
+    fn = {"dump": job_dump, "cases": job_cases, "pack": job_pack, "deltify": job_deltify, "encode": job_encode, "prims": job_prims}[job["kind"]]
     out = fn(job, P, ADE)
     out["mode"] = job["mode"]
     tmp = job["out"] + ".tmp"
